@@ -25,6 +25,7 @@ type scriptedConsumer struct {
 	calls        []string // "assign p:o,..." | "unassign"
 	lastAssign   []kafka.TopicPartition
 	assigned     bool
+	cursor       map[int32]int64 // cursor client: next offset per assigned partition
 }
 
 func newScriptedConsumer() *scriptedConsumer {
@@ -44,6 +45,10 @@ func (s *scriptedConsumer) Assign(p []kafka.TopicPartition) error {
 	copy(cp, p)
 	s.lastAssign = cp
 	s.assigned = true
+	s.cursor = map[int32]int64{}
+	for _, tp := range p {
+		s.cursor[tp.Partition] = int64(tp.Offset)
+	}
 	s.calls = append(s.calls, "assign "+fmtTPs(p, true))
 	return nil
 }
@@ -52,6 +57,7 @@ func (s *scriptedConsumer) Unassign() error {
 	defer s.mu.Unlock()
 	s.lastAssign = nil
 	s.assigned = false
+	s.cursor = map[int32]int64{}
 	s.calls = append(s.calls, "unassign")
 	return nil
 }
